@@ -65,6 +65,16 @@ struct c12_session : public vsim_session {
             for (cvm::atom_group *g : q->atom_groups) for (size_t a = 0; a < g->atoms.size(); a++) {
               px->atoms_positions[g->atoms[a].index] = cvm::rvector(r[n], r[n + 1], r[n + 2]);
               px->atoms_total_forces[g->atoms[a].index] = cvm::rvector(r[n + 3], r[n + 4], r[n + 5]); n += 6; } }});
+        // outside the model's vocabulary: cached centres and the fitted rotation of the component's atom groups
+        L.push_back({"XGrp:" + id,
+          [q]() { std::vector<double> r;
+            for (cvm::atom_group *g : q->atom_groups) { r.push_back(g->com.x); r.push_back(g->com.y); r.push_back(g->com.z);
+              r.push_back(g->cog.x); r.push_back(g->cog.y); r.push_back(g->cog.z);
+              r.push_back(g->rot.q.q0); r.push_back(g->rot.q.q1); r.push_back(g->rot.q.q2); r.push_back(g->rot.q.q3); }
+            return r; },
+          [q](std::vector<double> const &r) { size_t n = 0;
+            for (cvm::atom_group *g : q->atom_groups) { g->com = cvm::rvector(r[n], r[n + 1], r[n + 2]); g->cog = cvm::rvector(r[n + 3], r[n + 4], r[n + 5]);
+              g->rot.q = cvm::quaternion(r[n + 6], r[n + 7], r[n + 8], r[n + 9]); n += 10; } }});
         L.push_back({"LCvc:" + id,
           [q]() { std::vector<double> r; r.push_back(q->x.real_value); r.push_back(q->ft.real_value); r.push_back(q->jd.real_value);
             for (cvm::atom_group *g : q->atom_groups) for (size_t a = 0; a < g->atoms.size(); a++) {
@@ -79,6 +89,12 @@ struct c12_session : public vsim_session {
       L.push_back({"LX:" + id,
         [c]() { return std::vector<double>{c->x.real_value, c->ft.real_value, c->fj.real_value, c->x_reported.real_value}; },
         [c](std::vector<double> const &r) { c->x.real_value = r[0]; c->ft.real_value = r[1]; c->fj.real_value = r[2]; c->x_reported.real_value = r[3]; }});
+      // outside the model's vocabulary (names start with X): further members of the variable
+      L.push_back({"XVar:" + id,
+        [c]() { std::vector<double> r{c->x_old.real_value, c->v_fdiff.real_value, c->v_reported.real_value, c->ft_reported.real_value, c->f_old.real_value};
+          for (auto &g : c->atomic_gradients) { r.push_back(g.x); r.push_back(g.y); r.push_back(g.z); } return r; },
+        [c](std::vector<double> const &r) { c->x_old.real_value = r[0]; c->v_fdiff.real_value = r[1]; c->v_reported.real_value = r[2]; c->ft_reported.real_value = r[3]; c->f_old.real_value = r[4];
+          size_t n = 5; for (auto &g : c->atomic_gradients) { g = cvm::rvector(r[n], r[n + 1], r[n + 2]); n += 3; } }});
       L.push_back({"LFb:" + id, [c]() { return std::vector<double>{c->fb.real_value}; }, [c](std::vector<double> const &r) { c->fb.real_value = r[0]; }});
       L.push_back({"LF:" + id, [c]() { return std::vector<double>{c->f.real_value}; }, [c](std::vector<double> const &r) { c->f.real_value = r[0]; }});
     }
@@ -92,6 +108,12 @@ struct c12_session : public vsim_session {
           [q, i](std::vector<double> const &r) { q->colvar_forces[i].real_value = r[0]; }});
       }
     }
+    // outside the model's vocabulary: module statics and proxy arrays
+    L.push_back({"XErr", []() { return std::vector<double>{(double) cvm::errorCode}; }, [](std::vector<double> const &r) { cvm::errorCode = (int) r[0]; }});
+    L.push_back({"XDepth", [cv]() { std::vector<double> r{(double) cv->depth_s}; for (size_t d : cv->depth_v) r.push_back((double) d); return r; },
+                 [cv](std::vector<double> const &r) { cv->depth_s = (size_t) r[0]; for (size_t k = 0; k < cv->depth_v.size(); k++) cv->depth_v[k] = (size_t) r[k + 1]; }});
+    L.push_back({"XAtomF", [px]() { std::vector<double> r; for (auto &f : px->atoms_new_colvar_forces) { r.push_back(f.x); r.push_back(f.y); r.push_back(f.z); } return r; },
+                 [px](std::vector<double> const &r) { size_t n = 0; for (auto &f : px->atoms_new_colvar_forces) { f = cvm::rvector(r[n], r[n + 1], r[n + 2]); n += 3; } }});
     L.push_back({"LEnergy", [cv]() { return std::vector<double>{cv->total_bias_energy}; }, [cv](std::vector<double> const &r) { cv->total_bias_energy = r[0]; }});
     return L;
   }
@@ -113,7 +135,7 @@ struct c12_session : public vsim_session {
     setall(L, S0);
     run_item();
     bool const repeatable = (getall(L) == S1);
-    std::vector<size_t> R;
+    std::vector<size_t> R, Wsame;
     for (size_t j = 0; repeatable && j < L.size(); j++) {
       if (S0[j].empty()) continue;
       setall(L, S0);
@@ -122,6 +144,10 @@ struct c12_session : public vsim_session {
       L[j].set(pv);
       run_item();
       snap_t S2 = getall(L);
+      // a location that does not keep the perturbation was written, even when the item writes back the value it had
+      if (std::find(W.begin(), W.end(), j) == W.end()) {
+        for (size_t e = 0; e < pv.size(); e++) if (S2[j][e] != pv[e]) { Wsame.push_back(j); break; }
+      }
       // only what the item really wrote counts (entries it left alone keep the perturbation of their own location)
       bool dep = false;
       for (size_t w : W) for (size_t e = 0; e < S1[w].size(); e++) if (S1[w][e] != S0[w][e] && S2[w][e] != S1[w][e]) dep = true;
@@ -131,6 +157,8 @@ struct c12_session : public vsim_session {
     for (size_t k = 0; k < W.size(); k++) o << (k ? "," : "") << L[W[k]].name;
     o << " R=";
     for (size_t k = 0; k < R.size(); k++) o << (k ? "," : "") << L[R[k]].name;
+    o << " WS=";   // written with the value it already had
+    for (size_t k = 0; k < Wsame.size(); k++) o << (k ? "," : "") << L[Wsame[k]].name;
     o << "\n";
     setall(L, S0);
   }
